@@ -491,3 +491,5 @@ def check(run, prog):
     rule_counters(run, prog)
     from .c19_lookback import rule_lookback
     rule_lookback(run, prog)             # R-19.5
+    from .c19_toplevel_comment import rule_toplevel_comment
+    rule_toplevel_comment(run, prog)     # R-19.6
